@@ -78,6 +78,16 @@ func evalC08Cut(c CutCase) *h.Finding {
 		f.What = desc + ": " + f.What
 		return f
 	}
+	// the stream ends in the middle of a command LINE: the peer never sent that command. What the backend saw must be
+	// what it sees when the stream ends in front of that line (differential, same terminal answer and segmentation)
+	if start, ok := c.Conv.midLine(c.Cut); ok {
+		cr := c
+		cr.Cut = start
+		r, _ := runCut(cr)
+		if r.Sanity("c08", desc) == nil && h.Calls(r.Trace) != h.Calls(o.Trace) {
+			return h.F("c08-unfinished-line-executed", "%s: the stream ended inside the command line %q, which the peer never completed, and yet the backend saw other callbacks than for a stream ending in front of that line:\n  ends in front of the line: %s\n  ends inside the line:      %s", desc, c.Conv.In[start:c.Cut], h.Calls(r.Trace), h.Calls(o.Trace))
+		}
+	}
 	return nil
 }
 
@@ -245,7 +255,7 @@ func C08(tier string) int {
 			}
 		}
 	}
-	run.Rule = fmt.Sprintf("(a) corpus of %d conversations (DATA/BDAT transfers, AUTH, several transactions, errors; SMTP, LMTP, LMTP per-recipient) cut at EVERY byte offset x terminal answer {EOF, timeout, reset} x {one segment, one octet per segment}; (b) %d close-reason cases: connection states {fresh, greeted, authenticated, MAIL, RCPT, mid-BDAT, after a message} x server-initiated close {QUIT, 4th protocol error, over-long line, backend panic in Mail/Rcpt/Data/BDAT delivery/Reset} x every suffix and every single element of a pool of %d follow-up commands already buffered behind the closing command x {same segment, next segment, per octet}. All executions run in synctest bubbles: the bubble must drain (no goroutine of the connection left). Distinct by construction; non-trivial = a session exists at the cut / a suffix is buffered. (d) idle-timeout arming: ReadTimeout/WriteTimeout one minute on the virtual clock, a peer that pauses 40 s before every segment of 6 conversations x 3 modes - every wait must be under a freshly armed deadline, the last wait ends in 421; (e) a silence of five minutes (ReadTimeout one minute) at 7 points of a conversation (before/after the greeting, awaiting the answer to a 334, inside a transaction, a message, a chunk, between chunks) followed by more commands: nothing sent after the timeout is executed, the connection is closed; (c) STARTTLS conversations over a real TLS layer: {handshake completes, the client sends non-handshake octets, the client hangs up instead} x 5 plaintext prefixes (none ... mid-BDAT) x 7 continuations x 3 terminal answers, judged per session. Oracle on the backend trace: every session gets exactly one Logout, no callback begins after it, no session is created after the end, no recovered panic unless the backend panicked, output identical to the conversation without the buffered suffix.", len(corpus), len(closeCases), len(pool))
+	run.Rule = fmt.Sprintf("(a) corpus of %d conversations (DATA/BDAT transfers, AUTH, several transactions, errors; SMTP, LMTP, LMTP per-recipient) cut at EVERY byte offset x terminal answer {EOF, timeout, reset} x {one segment, one octet per segment}; (b) %d close-reason cases: connection states {fresh, greeted, authenticated, MAIL, RCPT, mid-BDAT, after a message} x server-initiated close {QUIT, 4th protocol error, over-long line, backend panic in Mail/Rcpt/Data/BDAT delivery/Reset} x every suffix and every single element of a pool of %d follow-up commands already buffered behind the closing command x {same segment, next segment, per octet}. All executions run in synctest bubbles: the bubble must drain (no goroutine of the connection left). Distinct by construction; non-trivial = a session exists at the cut / a suffix is buffered. (d) idle-timeout arming: ReadTimeout/WriteTimeout one minute on the virtual clock, a peer that pauses 40 s before every segment of 6 conversations x 3 modes - every wait must be under a freshly armed deadline, the last wait ends in 421; (e) a silence of five minutes (ReadTimeout one minute) at 7 points of a conversation (before/after the greeting, awaiting the answer to a 334, inside a transaction, a message, a chunk, between chunks) followed by more commands: nothing sent after the timeout is executed, the connection is closed; (f) the same silence at EVERY byte offset of every corpus conversation x {one segment, per octet}, followed by the rest of the conversation and more commands: closed, nothing executed afterwards, and output and callbacks identical to those of the conversation cut by a timeout at that offset (differential); (c) STARTTLS conversations over a real TLS layer: {handshake completes, the client sends non-handshake octets, the client hangs up instead} x 5 plaintext prefixes (none ... mid-BDAT) x 7 continuations x 3 terminal answers, judged per session. Oracle on the backend trace: every session gets exactly one Logout, no callback begins after it, no session is created after the end, no recovered panic unless the backend panicked, output identical to the conversation without the buffered suffix.", len(corpus), len(closeCases), len(pool))
 	run.Assumptions = []string{"an unterminated fragment that the line reader hands out before it reports EOF counts as input received before the disconnect", "for STARTTLS conversations (two sessions per connection) the oracle is per session: exactly one Logout each, nothing on a session after its own Logout"}
 
 	type job struct{ ci, cut int }
@@ -320,6 +330,24 @@ func C08(tier string) int {
 			run.Outcome("violation:" + f.Sig)
 		} else {
 			run.Outcome("silence-ok")
+		}
+	})
+	h.ParallelFor(len(jobs), func(i int) {
+		if run.Expired() {
+			return
+		}
+		j := jobs[i]
+		for _, per := range []bool{false, true} {
+			c := CutCase{Conv: corpus[j.ci], Cut: j.cut, PerOctet: per}
+			f := evalC08SilenceCut(c)
+			run.Eval(j.cut >= len(hello(c.Conv.Mode)))
+			if f != nil {
+				c.Show = fmt.Sprintf("%q", c.Conv.In[:j.cut])
+				run.Violate("c08-silence-cut", c, f, func() *h.Finding { return evalC08SilenceCut(c) })
+				run.Outcome("violation:" + f.Sig)
+			} else {
+				run.Outcome("silence-cut-ok")
+			}
 		}
 	})
 	tcases := c08TLSCases()
@@ -512,6 +540,61 @@ func c08SilenceCases() []C08SilenceCase {
 	}
 	return out
 }
+
+// ---- a silence longer than the read timeout at EVERY offset of the corpus ------------------------------------------
+
+// evalC08SilenceCut: the peer sends the first Cut octets of a corpus conversation, stays silent for five minutes
+// (ReadTimeout one minute) and then sends the rest of the conversation and more commands. Differential oracle with no
+// hand-written expectation: to the server an idle timeout is an idle timeout whether or not something arrives later,
+// so wire and callbacks must be those of the same conversation CUT at that offset by a timeout (the run of family (a)),
+// the connection must be closed, and nothing of what arrived after the silence may be executed.
+func evalC08SilenceCut(c CutCase) *h.Finding {
+	ct := c
+	ct.Term = h.TermTimeout
+	a, _ := runCut(ct)
+	cfg, be := modeConfig(c.Conv.Mode)
+	cfg.MaxMessageBytes = c.Conv.Limit
+	cfg.ReadTO, cfg.WriteTO = time.Minute, time.Minute
+	in := c.Conv.In[:c.Cut]
+	var segs [][]byte
+	if c.PerOctet {
+		segs = h.PerOctet(in)
+	} else if len(in) > 0 {
+		segs = h.OneSeg(in)
+	}
+	cfg.LongPauseBefore = len(segs) + 1
+	rest := append(append([]byte{}, c.Conv.In[c.Cut:]...), []byte("\r\nMAIL FROM:<okafter@a.example>\r\nRCPT TO:<okafter@b.example>\r\nNOOP\r\n")...)
+	segs = append(segs, rest, []byte("NOOP\r\n"))
+	b := h.RunS(cfg, be, segs, h.TermEOF)
+	desc := fmt.Sprintf("conv=%s/%s: %d of %d octets sent (peroctet=%t, ...%q), five minutes of silence (ReadTimeout 1m), then the rest and more commands", c.Conv.Name, c.Conv.Mode, c.Cut, len(c.Conv.In), c.PerOctet, tailStr(in, 40))
+	if f := b.Sanity("c08", desc); f != nil {
+		return f
+	}
+	if !b.Closed {
+		return h.F("c08-not-closed-after-timeout", "%s: the server did not close the connection (replies %s)", desc, b.Codes())
+	}
+	if f := sessionOracle(b.Trace, false, b.Log); f != nil {
+		f.What = desc + ": " + f.What
+		return f
+	}
+	for _, e := range b.Trace {
+		if strings.Contains(e.Arg, "okafter@") {
+			return h.F("c08-executed-after-timeout", "%s: a command sent after the idle timeout was executed: %s(%s); replies %s", desc, e.Kind, e.Arg, b.Codes())
+		}
+	}
+	if a.Sanity("c08", desc) != nil {
+		return nil // reported by family (a)
+	}
+	if h.Calls(a.Trace) != h.Calls(b.Trace) {
+		return h.F("c08-silence-differs-from-cut", "%s: callbacks differ from those of the conversation cut by a timeout at the same offset:\n  cut:     %s\n  silence: %s", desc, h.Calls(a.Trace), h.Calls(b.Trace))
+	}
+	if string(a.Wire) != string(b.Wire) {
+		return h.F("c08-silence-differs-from-cut", "%s: the server's output differs from that of the conversation cut by a timeout at the same offset:\n  cut:     %q\n  silence: %q", desc, tailStr(a.Wire, 200), tailStr(b.Wire, 200))
+	}
+	return nil
+}
+
+func init() { h.RegisterReplayer("c08-silence-cut", evalC08SilenceCut) }
 
 // ---- idle-timeout arming -------------------------------------------------------------------------------
 
